@@ -307,6 +307,8 @@ class Gen:
         rd = f.recdim()
         fixed = [i for i, (_, l) in enumerate(f.dims) if l != 0]
         nrec = len(sim.rec_vars())
+        if want_rec is None and self.flavor == "reconly" and sim.nenddef == 0:
+            want_rec = True
         if want_rec is None:
             if rd < 0:
                 want_rec = False
@@ -404,8 +406,12 @@ class Gen:
     def block(self, initial):
         d, sim = self.draw, self.sim
         if initial:
-            nd = d(st.integers(0, 8)) if self.flavor == "free" else d(st.integers(1, 6))
+            nd = d(st.integers(0, 8)) if self.flavor in ("free", "novars") else d(st.integers(1, 6))
             nv = d(st.integers(0, 8)) if self.flavor == "free" else d(st.integers(1, 7))
+            if self.flavor == "novars":
+                nv = 0
+            if self.flavor == "reconly":
+                self.def_dim(rec=True)
             na = d(st.integers(0, 7))
             kinds = ["dim"] * nd + ["var"] * nv + ["att"] * na
         else:
@@ -420,7 +426,7 @@ class Gen:
         first_dim = True
         for kd in kinds:
             if kd == "dim":
-                if initial and first_dim and self.flavor != "free":
+                if initial and first_dim and self.flavor in ("mixed", "onerec"):
                     self.def_dim(rec=chance(d, 30))
                 else:
                     self.def_dim()
@@ -465,7 +471,7 @@ def case_strategy(draw, tier="quick"):
     big = tier == "thorough"
     fmt = draw(st.sampled_from([1, 2, 5]))
     k = draw(st.sampled_from([1, 1, 2, 2, 3, 4]))
-    flavor = draw(st.sampled_from(["mixed"] * 11 + ["onerec"] * 5 + ["free"] * 4))
+    flavor = draw(st.sampled_from(["mixed"] * 10 + ["onerec"] * 5 + ["free"] * 3 + ["reconly"] * 2 + ["novars"]))
     clobber = draw(st.sampled_from([None, None, None, "file", "symlink"]))
     info, env = {}, {}
     src = draw(st.sampled_from(["none", "none", "info", "info", "env", "env", "both"]))
